@@ -1,14 +1,17 @@
 import Percival.Driver.Loop
-import Percival.Model.Parsenum
-import Percival.Model.ParsenumFloat
-import Percival.Model.Humansize
-/-! `pmodel parsenum`: line protocol of `harness/h_parsenum.c` (driver code, not part of any theorem). -/
+import Percival.Model.ParsenumStep
+/-! `pmodel parsenum`: line protocol of `harness/h_parsenum.c`.  Thin by construction: `parse` (text → typed op),
+    `Model.ParsenumStep.stepOp`, `render` (typed output → text).  For `hs_*` lines the L1 part is the answer of
+    `Spec/HumansizeExec.lean` and the L2 part the model's; for `pn` lines both parts are read off the model's
+    outcome (theorems `C16.exec_*`). -/
 namespace Percival.Driver.Parsenum
 open Percival.Model Percival.Driver
 open Percival.Spec.Parsenum (IntTy CVal)
-open Percival.Model.Parsenum (Answer Outcome)
-open Percival.Spec.Ieee (Fl)
-open Percival.Model.ParsenumFloat (FTy FOutcome)
+open Percival.Model.Parsenum (Outcome)
+open Percival.Model.ParsenumFloat (FTy)
+open Percival.Model.ParsenumStep
+
+/-! ## text → typed op -/
 
 def intTy? : String → Option IntTy
   | "int8_t" => some .i8 | "int16_t" => some .i16 | "int32_t" => some .i32 | "int64_t" => some .i64
@@ -27,41 +30,47 @@ def cval? (t : String) : Option CVal :=
   else none
 
 /-- `nan | +inf | -inf | <sign><m>p<e>` -/
-def fl? (t : String) : Option Fl :=
+def flLit? (t : String) : Option FlLit :=
   if t = "nan" then some .nan else
   let neg := t.startsWith "-"
   let body := (t.drop 1).toString
   if body = "inf" then some (.inf neg) else
   match body.splitOn "p" with
   | [m, e] => match m.toNat?, e.toInt? with
-    | some m, some e => some (.fin neg ((m : Rat) * Strtod.pow2 e))
+    | some m, some e => some (.bin neg m e)
     | _, _ => none
   | _ => none
 
-def flBound? (t : String) : Option Fl :=
-  if t.startsWith "d" then fl? (t.drop 1).toString else none
+def flBound? (t : String) : Option FlLit :=
+  if t.startsWith "d" then flLit? (t.drop 1).toString else none
 
-/-- strip factors of two: `n = m · 2^k`, `m` odd (`n > 0`); fuel = `n` -/
-def oddPart : Nat → Nat → Nat → Nat × Nat
-  | 0, n, k => (n, k)
-  | f+1, n, k => if n % 2 = 0 ∧ n ≠ 0 then oddPart f (n / 2) (k + 1) else (n, k)
+def parse : List String → Option Op
+  | ["pn", ty, base, trailing, mn, mx, hex] => do
+    let base ← base.toNat?
+    let tr ← trailing.toNat?
+    let bs ← bytesOfHex hex
+    let tr := tr != 0
+    match intTy? ty, fTy? ty with
+    | some t, _ =>
+      if mn = "-" ∧ mx = "-" then pure (.pnInt t base tr none bs)
+      else do pure (.pnInt t base tr (some (← cval? mn, ← cval? mx)) bs)
+    | none, some t =>
+      if mn = "-" ∧ mx = "-" then pure (.pnFloat t base tr none bs)
+      else do pure (.pnFloat t base tr (some (← flBound? mn, ← flBound? mx)) bs)
+    | none, none => none
+  | ["hs_parse", hex] => do pure (.hsParse (← bytesOfHex hex))
+  | ["hs_fmt", n] => do pure (.hsFmt (← n.toNat?))
+  | _ => none
 
-def showFl : Fl → String
+/-! ## typed output → text -/
+
+def showTok : FlTok → String
   | .nan => "nan"
   | .inf neg => (if neg then "-" else "+") ++ "inf"
-  | .fin neg q =>
-    let sg := if neg then "-" else "+"
-    if q.num ≤ 0 then sg ++ "0p0" else
-    let n := q.num.toNat
-    if q.den = 1 then
-      let (m, k) := oddPart 4096 n 0
-      s!"{sg}{m}p{k}"
-    else
-      let (d, k) := oddPart 4096 q.den 0
-      if d = 1 then s!"{sg}{n}p-{k}" else s!"{sg}{n}/{q.den}"     -- not a binary fraction: cannot happen after rounding
-
-def isOoc (t : IntTy) (mn mx : CVal) : Bool :=
-  t.signed && !(decide (t.lo ≤ mn.toInt) && decide (mn.toInt ≤ t.hi) && decide (t.lo ≤ mx.toInt) && decide (mx.toInt ≤ t.hi))
+  | .zero neg => (if neg then "-" else "+") ++ "0p0"
+  | .up neg m k => s!"{if neg then "-" else "+"}{m}p{k}"
+  | .down neg n k => s!"{if neg then "-" else "+"}{n}p-{k}"
+  | .ratio neg n d => s!"{if neg then "-" else "+"}{n}/{d}"       -- not a binary fraction: cannot happen after rounding
 
 def showInt (o : Outcome) (ooc : Bool) : String :=
   match o with
@@ -73,96 +82,41 @@ def showInt (o : Outcome) (ooc : Bool) : String :=
       | .erange => "ERANGE"
     if ooc then s!"ooc | {a} x={x}" else s!"{a} | x={x}"
 
-def showFloat (o : FOutcome) : String :=
+def showFloat (o : FOut) : String :=
   match o with
   | .abort => "abort"
   | .done x e =>
     let a := match e with
-      | .ok => s!"ok {showFl x}"
+      | .ok => s!"ok {showTok x}"
       | .einval => "EINVAL"
       | .erange => "ERANGE"
-    s!"{a} | x={showFl x}"
+    s!"{a} | x={showTok x}"
 
-/-! Executable reading of `Spec/Humansize.lean` by enumeration (the L1 judge for `hs_*`; the model's own
-    answer goes to the L2 part, so a changed constant in the C shows up as a concrete L1 failure). -/
+def render : Out → String
+  | .int o ooc => showInt o ooc
+  | .float o => showFloat o
+  | .hsParse spec model =>
+    let l1 := match spec with
+      | some n => s!"ok {n}"
+      | none => "fail"
+    match model with
+    | .ok n => s!"{l1} | ok {n}"
+    | .fail => s!"{l1} | fail"
+    | .divzero => s!"{l1} | divzero"
+  | .hsFmt spec model =>
+    let l1 := match spec with
+      | some s => hexOfBytes s
+      | none => "none"
+    match model with
+    | .str s => s!"{l1} | {hexOfBytes s}"
+    | .oob => s!"{l1} | oob"
+  | .skip => "skip"
 
-open Percival.Spec.Humansize in
-/-- all `(suffix, k)` of the language ` ?[kMGTPE]?B?` -/
-def allSuffixes : List (List UInt8 × Nat) :=
-  let pres : List (List UInt8 × Nat) := ([], 0) :: (List.range 7).filterMap fun k =>
-    if k = 0 then none else (siPrefixes[k]?).map fun c => ([c], k)
-  [[], [0x20]].flatMap fun sp => pres.flatMap fun (pre, k) => [[], [0x42]].map fun b => (sp ++ pre ++ b, k)
-
-open Percival.Spec.Humansize Percival.Spec.Numeral in
-def specParse (s : List UInt8) : Option Nat :=
-  let ds := s.takeWhile (isDigit 10)
-  let r := s.dropWhile (isDigit 10)
-  if ds.isEmpty then none else
-  match digitsVal 10 0 ds, allSuffixes.find? (fun p => p.1 == r) with
-  | some n, some (_, k) => if n * 1000 ^ k ≤ U64MAX then some (n * 1000 ^ k) else none
-  | _, _ => none
-
-open Percival.Spec.Humansize in
-def allForms : List Form :=
-  (List.range 1000).map Form.bytes ++
-  (List.range 7).flatMap fun k => if k = 0 then [] else
-    ((List.range 100).filterMap fun x => if x ≥ 10 then some (Form.dec (x / 10) (x % 10) k) else none) ++
-    ((List.range 1000).filterMap fun x => if x ≥ 10 then some (Form.int x k) else none)
-
-open Percival.Spec.Humansize in
-def specFormat (n : Nat) : Option (List UInt8) :=
-  let best := allForms.foldl (fun (acc : Option Form) f =>
-    if f.value ≤ n then
-      match acc with
-      | some g => if g.value < f.value then some f else acc
-      | none => some f
-    else acc) none
-  best.bind Form.render
-
+/-- a line that is not an op of this protocol is answered `skip`, as `h_parsenum.c` does -/
 def step (_ : Unit) (toks : List String) : Unit × String :=
-  match toks with
-  | ["pn", ty, base, trailing, mn, mx, hex] =>
-    match base.toNat?, trailing.toNat?, bytesOfHex hex with
-    | some base, some tr, some bs =>
-      let s := Strto.cstr bs
-      let tr := tr != 0
-      match intTy? ty, fTy? ty with
-      | some t, _ =>
-        if mn = "-" ∧ mx = "-" then ((), showInt (Parsenum.parsenumEx4 t s base tr) false)
-        else match cval? mn, cval? mx with
-          | some a, some b => ((), showInt (Parsenum.parsenumEx6 t s a b base tr) (isOoc t a b))
-          | _, _ => ((), "skip")
-      | none, some t =>
-        if mn = "-" ∧ mx = "-" then ((), showFloat (ParsenumFloat.parsenumEx4 t s base tr))
-        else match flBound? mn, flBound? mx with
-          | some a, some b => ((), showFloat (ParsenumFloat.parsenumEx6 t s a b base tr))
-          | _, _ => ((), "skip")
-      | none, none => ((), "skip")
-    | _, _, _ => ((), "skip")
-  | ["hs_parse", hex] =>
-    match bytesOfHex hex with
-    | some bs =>
-      let l1 := match specParse (Strto.cstr bs) with
-        | some n => s!"ok {n}"
-        | none => "fail"
-      match Humansize.parse (Strto.cstr bs) with
-      | .ok n => ((), s!"{l1} | ok {n}")
-      | .fail => ((), s!"{l1} | fail")
-      | .divzero => ((), s!"{l1} | divzero")
-    | none => ((), "skip")
-  | ["hs_fmt", n] =>
-    match n.toNat? with
-    | some n =>
-      if n < 2 ^ 64 then
-        let l1 := match specFormat n with
-          | some s => hexOfBytes s
-          | none => "none"
-        match Humansize.format n with
-        | .str s => ((), s!"{l1} | {hexOfBytes s}")
-        | .oob => ((), s!"{l1} | oob")
-      else ((), "skip")
-    | none => ((), "skip")
-  | _ => ((), "skip")
+  match parse toks with
+  | some op => ((), render (stepOp op))
+  | none => ((), "skip")
 
 def main (_ : List String) : IO UInt32 := loop () step
 
